@@ -1,4 +1,5 @@
-\* Recording; W=2; graph dumped and every transition replayed on the real code.
+\* Recording; W=2; 16 deployment definitions (start, timeout, minimum activation height, always-active height);
+\* graph dumped and its transitions replayed on the real code.
 SPECIFICATION Spec
 CONSTANTS
   W = 2
@@ -7,8 +8,8 @@ CONSTANTS
   Starts = {0, 1}
   Timeouts = {0, 3}
   Thrs = {0}
-  MinHs = {0}
-  Alwayss = {0}
+  MinHs = {0, 6}
+  Alwayss = {0, 3}
   Implicit = {}
   MaxBlocks = 6
   MaxHeight = 6
@@ -19,8 +20,8 @@ CONSTANTS
   DtChoices = {1}
   DtBase = 0
   MTPSpan = 11
-  QueryAll = TRUE
-  NextVerOn = TRUE
+  QueryAll = FALSE
+  NextVerOn = FALSE
   CheckAll = TRUE
   Record = TRUE
   VerChoices <- Ver1SigNone
